@@ -2,20 +2,34 @@
  * Property-specific operations live in ops_*.c, included here so that the
  * whole executor is one translation unit. */
 #include "exec_common.h"
+#include <signal.h>
+#include <unistd.h>
 #include "ops_c19.c"
 #include "ops_c20.c"
 #include "ops_c13.c"
 #include "ops_c16.c"
 #include "ops_c02.c"
 #include "ops_c10.c"
+#include "ops_c08.c"
+
+static void on_alarm(int sig)
+{
+  static const char msg[] = "OP-TIMEOUT: the operation in flight did not finish within its time limit\n";
+  (void)sig;
+  if (write(2, msg, sizeof(msg) - 1) < 0) _exit(6);
+  _exit(6);
+}
 
 int main(void)
 {
+  int limit = getenv("EXEC_OP_TIMEOUT") ? atoi(getenv("EXEC_OP_TIMEOUT")) : 60;
+  signal(SIGALRM, on_alarm);
   ssize_t len;
   setvbuf(stdout, NULL, _IOLBF, 1 << 16);
   while ((len = getline(&g_line, &g_cap, stdin)) > 0) {
     toks_t t = tokenize(g_line);
     int done = 0;
+    alarm((unsigned)limit);
     if (t.n == 0) { printf("R skip\nE\n"); continue; }
     if (!done) done = dispatch_c19(&t);
     if (!done) done = dispatch_c20(&t);
@@ -23,6 +37,7 @@ int main(void)
     if (!done) done = dispatch_c16(&t);
     if (!done) done = dispatch_c02(&t);
     if (!done) done = dispatch_c10(&t);
+    if (!done) done = dispatch_c08(&t);
     if (!done) printf("R skip\n");
     printf("E\n");      /* end of this op: everything before a crash belongs to the op in flight */
     fflush(stdout);
